@@ -335,8 +335,78 @@ def d3b_every_member(chk: Check) -> None:
                          "anchor below it are missed".format(member))
 
 
+def d4_fresh_tables(chk: Check, rid: str = "C10-D4") -> None:
+    """Conflict detection compares the anchors of the documents *as they
+    are now*: both tables are local, start empty and are filled by an
+    unconditional scan in the same call (a Merger folds many right-hand
+    documents into one left document, whose anchors grow on the way)."""
+    from sa.coords import reaching_def
+    from sa.guards import facts_at
+    prog = chk.prog
+    chk.rule(rid, "the anchor tables compared by "
+             "_resolve_anchor_conflicts are local, empty at the start and "
+             "filled by an unconditional scan of the current documents",
+             floor=2)
+    fi = prog.func("Merger._resolve_anchor_conflicts")
+    rhs = fi.params()[1]
+    scans = [c for c in walk_local(fi.node) if isinstance(c, ast.Call) and
+             src(c.func).endswith("scan_for_anchors") and len(c.args) == 2]
+    if len(scans) != 2:
+        raise AnalysisError("expected two anchor scans, found {}".format(
+            len(scans)))
+    for c in scans:
+        doc, table = src(c.args[0]), c.args[1]
+        text = src(c)
+        d = reaching_def(table.id, c) if isinstance(table, ast.Name) else None
+        conds = [f for f in facts_at(c) if f.kind == "cond"]
+        problems = []
+        if doc not in ("self.data", rhs):
+            problems.append("scans `{}`".format(doc))
+        if d is None or src(d) not in ("{}", "dict()"):
+            problems.append("table `{}` does not start as a new empty dict "
+                            "in this call (it is `{}`)".format(
+                                src(table), src(d) if d is not None
+                                else "defined elsewhere"))
+        if conds:
+            problems.append("the scan is conditional on {}".format(conds[0]))
+        if problems:
+            chk.fail(rid, fi, c, text, "; ".join(problems) +
+                     ": anchors brought in by earlier merges are invisible "
+                     "to the conflict test")
+        else:
+            chk.ok(rid, fi, c, text, "fresh table, unconditional scan")
+
+
+def d5_no_live_mutation(chk: Check, rid: str = "C10-D5",
+                        prefixes: Tuple[str, ...] = (
+                            "yamlpath/common/anchors.py",
+                            "yamlpath/merger/")) -> None:
+    """Anchor replacement re-keys mappings (pop + insert) while it walks
+    them.  That is only sound over a snapshot of the keys; over a live view
+    or a generator it raises RuntimeError for every anchored key that is
+    not the last one -- an acceptable merge is refused."""
+    from sa.iterate import live_mutations
+    prog = chk.prog
+    chk.rule(rid, "no loop changes the size of the container it iterates "
+             "live (snapshots and mutate-then-leave are fine)", floor=10)
+    for fi in prog.functions.values():
+        if not fi.module.relpath.startswith(prefixes):
+            continue
+        bad, n = live_mutations(fi)
+        for loop, node, what in bad:
+            chk.fail(rid, fi, node, "{} inside `for {} in {}`".format(
+                what, src(loop.target), src(loop.iter)[:40]),
+                "the loop iterates the container live (a generator "
+                "expression is not a snapshot) and changes its size: "
+                "RuntimeError / skipped elements")
+        for _ in range(n):
+            chk.ok(rid, fi, fi.node, fi.short, "loop ok", False)
+
+
 def run(chk: Check) -> None:
     d1_policy(chk)
     d2_unique(chk)
     d3_traversal(chk)
     d3b_every_member(chk)
+    d4_fresh_tables(chk)
+    d5_no_live_mutation(chk)
